@@ -1,5 +1,7 @@
 package ocode
 
+import "github.com/HobbyOSs/gosk/pkg/cpu"
+
 //go:generate enumer -type=OcodeKind -json -text
 type OcodeKind int
 
@@ -215,4 +217,7 @@ const (
 type Ocode struct {
 	Kind     OcodeKind
 	Operands []string // 数値や変数名など
+	// BitMode は、この命令が書かれた位置で有効だった [BITS n] のモード (0 = 未指定: コード生成側の既定値を使う)。
+	// pass1 は命令ごとにその時点のモードでサイズを見積もるので、コード生成も同じモードでエンコードする。
+	BitMode cpu.BitMode
 }
